@@ -722,9 +722,12 @@ def check(repo: Repo, run: Run) -> None:
                            facts={"conditions": other}, line=fnode.lineno,
                            witness="a word with only an undeclared bit set, e.g. the highest bit")
         # coverage of the whole family
+        md_ = dict(ci.members)
         for name, val in ci.members:
             if not isinstance(val, int) or val == 0 or name in shown_members:
                 continue
+            if any(md_.get(sn) == val for sn in shown_members):
+                continue        # a second name for a value that is shown (an Enum alias is the same member)
             in_field = bool(val & field_masks)
             covered = (not in_field) and popcount(val) > 1 and (val & ~shown_bits) == 0
             is_mask_name = popcount(val) > 1 and not in_field and (val & ~shown_bits) == 0
